@@ -780,7 +780,37 @@ func findField(st *types.Struct, name string) ([]int, types.Type) {
 	return nil, nil
 }
 
+// ghostArrayLoc: p.ghost_x[i] - a ghost array of the object, one array per ghost name
+// with an extra index dimension.
+func (e *Enc) ghostArrayLoc(sel SSel, ctx *specCtx) (*heapKey, []string) {
+	base := e.evalSpec(sel.X, ctx)
+	k := typeKey(types.Typ[types.UnsafePointer]) + "/" + sel.Name + "[]"
+	hk, ok := e.hkeys[k]
+	if !ok {
+		hk = &heapKey{Key: k, Root: typeKey(types.Typ[types.UnsafePointer]), Leaf: Leaf{Sort: "Int"}, Sort: arraySort("Int", 3)}
+		e.hkeys[k] = hk
+	}
+	if base.T != nil {
+		if _, isIface := base.T.Underlying().(*types.Interface); isIface {
+			return hk, []string{"(ifaceobj " + base.L[0] + ")", "0"}
+		}
+	}
+	if len(base.L) >= 2 {
+		return hk, []string{base.L[0], base.L[1]}
+	}
+	return hk, []string{base.L[0], "0"}
+}
+
 func (e *Enc) evalIndex(x SIndex, ctx *specCtx) *Val {
+	if sel, ok := x.X.(SSel); ok && strings.HasPrefix(sel.Name, "ghost_") {
+		hk, idx := e.ghostArrayLoc(sel, ctx)
+		i := e.evalSpec(x.I, ctx)
+		st := ctx.st
+		if ctx.inOld {
+			st = ctx.old
+		}
+		return mathInt(sSel(e.heapGet(st, hk), append(idx, i.L[0])...))
+	}
 	base := e.evalSpec(x.X, ctx)
 	i := e.evalSpec(x.I, ctx)
 	if base.T == nil {
@@ -1567,6 +1597,14 @@ func (e *Enc) evalDesignator(x SExpr, ctx *specCtx) *designator {
 			return &designator{kind: "loc", ptr: e.annotate(v), T: pt.Elem()}
 		}
 	case SIndex:
+		if sel, ok := x.X.(SSel); ok && strings.HasPrefix(sel.Name, "ghost_") {
+			hk, idx := e.ghostArrayLoc(sel, ctx)
+			if id, ok := x.I.(SIdent); ok && id.Name == "all" {
+				return &designator{kind: "ghostarr", hk: hk, idx: idx}
+			}
+			i := e.evalSpec(x.I, ctx)
+			return &designator{kind: "ghostloc", hk: hk, idx: append(append([]string{}, idx...), i.L[0])}
+		}
 		// s[*] is written s[all]
 		if id, ok := x.I.(SIdent); ok && id.Name == "all" {
 			s := e.evalSpec(x.X, ctx)
